@@ -127,11 +127,25 @@ PROPS["C15"] = {
                  + ["xandikos.web.CalendarCollection.get_calendar_color", "xandikos.web.SubscriptionCollection.get_calendar_color",
                     "xandikos.web.AddressbookCollection.get_addressbook_color", "xandikos.web.CalendarCollection.get_calendar_order",
                     "xandikos.web.CalendarCollection.get_calendar_description", "xandikos.web.AddressbookCollection.get_addressbook_description",
-                    "xandikos.web.StoreBasedCollection.get_displayname", "xandikos.web.StoreBasedCollection.get_comment"],
-    "explanation": "Every metadata setter stores exactly the value and persists once, every getter returns the stored raw "
-                   "value (no interpolation), the metadata object is rebuilt from the repository on each access, and PROPPATCH "
-                   "reports 200 only when the handler's set_value returned. The configparser / dulwich-config file round trips "
-                   "are ASSUMED (bounded conformance only).",
+                    "xandikos.web.StoreBasedCollection.get_displayname", "xandikos.web.StoreBasedCollection.get_comment",
+                    "xandikos.store.git.GitStore.config.<locals>.save_config",
+                    ] + ['xandikos.webdav.DisplayNameProperty.get_value', 'xandikos.webdav.DisplayNameProperty.set_value', 'xandikos.webdav.CommentProperty.get_value', 'xandikos.webdav.CommentProperty.set_value', 'xandikos.caldav.CalendarOrderProperty.get_value', 'xandikos.caldav.CalendarOrderProperty.set_value', 'xandikos.caldav.CalendarColorProperty.get_value', 'xandikos.caldav.CalendarColorProperty.set_value', 'xandikos.carddav.AddressbookDescriptionProperty.get_value', 'xandikos.carddav.AddressbookDescriptionProperty.set_value', 'xandikos.infit.AddressbookColorProperty.get_value', 'xandikos.infit.AddressbookColorProperty.set_value', 'xandikos.caldav.CalendarDescriptionProperty.get_value'] + ["xandikos.web.StoreBasedCollection.set_displayname", "xandikos.web.StoreBasedCollection.set_comment",
+                    "xandikos.web.CalendarCollection.set_calendar_color", "xandikos.web.SubscriptionCollection.set_calendar_color",
+                    "xandikos.web.AddressbookCollection.set_addressbook_color", "xandikos.web.AddressbookCollection.set_addressbook_description",
+                    "xandikos.web.CalendarCollection.set_calendar_order",
+                    ] + [f"xandikos.store.git.GitStore.set_{p}" for p in ("displayname", "description", "color", "comment", "source_url")] + [
+                    "xandikos.store.git.BareGitStore._import_one@metadata", "xandikos.store.git.TreeGitStore._import_one@metadata"],
+    "explanation": "A chain of contracts from the protocol to the stored bytes, each link discharged: the property handlers pass exactly the "
+                   "element text to the resource's setter / put exactly the getter's answer into the element; the collection and GitStore "
+                   "getters answer the stored value unchanged (colour: only a missing leading '#' is added), for whichever of the two metadata "
+                   "forms the repository uses (GitStore.config decides by the [xandikos] section and reads exactly the stored .xandikos file); "
+                   "every setter is exactly one metadata write: with the git-config form the value reads back at once (and _write_config goes "
+                   "through the atomic named-file replacement only), with the file form the parser is updated, no interpolation, and the save "
+                   "callback - GitStore.config's nested save_config, under contract - makes exactly the parser's options the stored file while "
+                   "changing no member (_import_one@metadata on both git stores); PROPPATCH reports 200 only when the handler's set_value "
+                   "returned. ASSUMED (bounded conformance only): the configparser / dulwich-config write-read round trips, and that the save "
+                   "callback a FileBasedCollectionMetadata holds is the one GitStore.config built (the composition of the links is argued in "
+                   "DESIGN 0.10, not machine-checked).",
 }
 CONFIG_EXPLORE = "config_explore.py"
 PROPS["C15"]["bounded_always"] = {"xandikos.store.git.GitStore.config": {
@@ -313,7 +327,8 @@ V = "xandikos.store.vdir.VdirStore."
 PROPS["C01"]["functions"] += [V + "import_one", V + "delete_one", V + "_get_etag"]
 PROPS["C02"]["functions"] += [V + "_get_etag", V + "import_one", V + "_get_raw"]
 PROPS["C03"]["functions"] += [V + "import_one", V + "delete_one"]
-PROPS["C04"]["functions"] += [V + "import_one", "xandikos.store.git.RepoCollectionMetadata._write_config"]
+PROPS["C04"]["functions"] += [V + "import_one", "xandikos.store.git.RepoCollectionMetadata._write_config",
+                              "xandikos.store.git.TreeGitStore._import_one@metadata"]
 STORE_EXPLORE = "store_explore.py"
 _STORE_BOUND = ("histories of <= 5 store operations (quick: 250 seeded samples per back end; thorough: all of length <= 2 plus 3000 seeded samples of length <= 6) over "
                 "2 names x 2 uids x {no, current, stale etag}, deletes, restarts, on tree-git, bare-git and vdir")
